@@ -192,6 +192,11 @@ type crSess struct {
 	vlogOrder   []string       // the same keys in the order they were written
 	base        int            // events of earlier recordings in this session
 	st          *Stats
+	// C29: the step (+1; 0 = none) in which DropPrefix / DropAll ran, and what it dropped
+	dropAt    int
+	dropAll   bool
+	dropPfx   [][]byte
+	judgeStep int // step of the event whose image is being judged
 }
 
 func (s *crSess) opts(dir string) badger.Options {
@@ -466,6 +471,9 @@ func (s *crSess) judgeImage(img crImage, acked, issued int, exact bool, prop str
 }
 
 func (s *crSess) judgeDir(d, names string, acked, issued int, exact bool, prop string) crVerdict {
+	if s.dropAt > 0 && s.judgeStep >= s.dropAt-1 {
+		return s.judgeDrop(d, names, s.judgeStep > s.dropAt-1)
+	}
 	var v crVerdict
 	fail := func(tag, msg string) { v.fails = append(v.fails, "["+tag+"] "+msg) }
 	db, err := badger.Open(s.opts(d).WithSyncWrites(false))
@@ -721,6 +729,196 @@ func (s *crSess) judgeDir(d, names string, acked, issued int, exact bool, prop s
 		})
 	}
 	return v
+}
+
+// ---------------------------------------------------------------- C29: crash during a drop
+
+func (s *crSess) isDropped(k string) bool {
+	if s.dropAll {
+		return true
+	}
+	for _, p := range s.dropPfx {
+		if bytes.HasPrefix([]byte(k), p) {
+			return true
+		}
+	}
+	return false
+}
+
+// drop: DropPrefix / DropAll on the live database, as one recorded step. Every commit issued
+// before it has been acknowledged; the step's events are judged by judgeDrop.
+func (s *crSess) drop(words []string, emit func(string, string), fail func(string)) {
+	s.barrier()
+	s.dropAt = s.steps + 1
+	s.dropAll = false
+	s.dropPfx = nil
+	var err error
+	if len(words) > 0 && words[0] == "all" {
+		s.dropAll = true
+		err = s.db.DropAll()
+	} else {
+		for _, x := range words {
+			s.dropPfx = append(s.dropPfx, unhx(x))
+		}
+		err = s.db.DropPrefix(s.dropPfx...)
+	}
+	s.barrier()
+	out := "ok " + s.stepTokens(s.steps, true)
+	if err != nil {
+		out = "err:" + err.Error()
+		fail("[C29-crash-drop-error] the drop returned an error: " + err.Error())
+	}
+	emit("drop "+strings.Join(words, " "), out)
+	s.st.Inc(fmt.Sprintf("drop:all=%v,prefixes=%d", s.dropAll, len(s.dropPfx)))
+	s.stepKind = append(s.stepKind, "drop")
+	s.steps++
+	if err == nil {
+		for _, f := range s.dropJudgeDB(s.db, true, "live-", false) {
+			fail(f)
+		}
+	}
+}
+
+// judgeDrop opens the image of a crash during (after = false) or after (after = true) the drop.
+func (s *crSess) judgeDrop(d, names string, after bool) crVerdict {
+	var v crVerdict
+	db, err := badger.Open(s.opts(d).WithSyncWrites(false))
+	if err != nil {
+		v.out = "err:" + crOpenErrKind(err)
+		v.fails = append(v.fails, fmt.Sprintf("[C29-crash-open] Open of the image of a crash during a drop failed: %v (files: %s)", err, names))
+		return v
+	}
+	defer db.Close()
+	v.fails = s.dropJudgeDB(db, after, "", true)
+	v.out = "ok"
+	return v
+}
+
+// dropJudgeDB: the state of an opened database against the commits issued before the drop.
+// A dropped key reads its pre-drop value or is absent (absent when the drop had completed);
+// every other key reads its pre-drop value; every stored version is a write of some commit;
+// a new commit works and gets a timestamp above every stored version.
+func (s *crSess) dropJudgeDB(db *badger.DB, after bool, sub string, probeCommit bool) (fails []string) {
+	fail := func(tag, msg string) { fails = append(fails, "[C29-crash-"+sub+tag+"] "+msg) }
+	if err := badger.VerifValidate(db); err != nil {
+		fail("validate", err.Error())
+	}
+	type kvT struct {
+		key string
+		ver uint64
+	}
+	byVer := map[kvT][]crEnt{}
+	latest := map[string]crEnt{}
+	hist := map[string][]crEnt{}
+	for _, c := range s.commits {
+		for _, e := range c.ents {
+			k := kvT{string(e.key), c.ts}
+			byVer[k] = append(byVer[k], e)
+			latest[string(e.key)] = e
+			hist[string(e.key)] = append(hist[string(e.key)], e)
+		}
+	}
+	var maxVer uint64
+	for _, e := range crDumpDB(db) {
+		if e.ver > maxVer {
+			maxVer = e.ver
+		}
+		cands := byVer[kvT{e.key, e.ver}]
+		okc := false
+		for _, w := range cands {
+			if w.del == e.del && (w.del || bytes.Equal(w.val, e.val)) {
+				okc = true
+			}
+		}
+		switch {
+		case len(cands) == 0:
+			fail("unknown-version", fmt.Sprintf("stored entry %s@%d belongs to no commit", hx([]byte(e.key)), e.ver))
+		case e.rderr != "":
+			fail("vlog-read", fmt.Sprintf("value of %s@%d unreadable: %s", hx([]byte(e.key)), e.ver, e.rderr))
+		case !okc:
+			fail("wrong-value", fmt.Sprintf("%s@%d holds del=%v %s, which no commit wrote at that version", hx([]byte(e.key)), e.ver, e.del, hx(e.val)))
+		}
+	}
+	var keys []string
+	for k := range latest {
+		keys = append(keys, k)
+	}
+	sort.Strings(keys)
+	_ = db.View(func(txn *badger.Txn) error {
+		for _, k := range keys {
+			w := latest[k]
+			found, val := false, []byte(nil)
+			it, err := txn.Get([]byte(k))
+			switch {
+			case err == badger.ErrKeyNotFound:
+			case err != nil:
+				fail("read", fmt.Sprintf("Get(%s): %v", hx([]byte(k)), err))
+				continue
+			default:
+				val, err = it.ValueCopy(nil)
+				if err != nil {
+					fail("read", fmt.Sprintf("Get(%s): value: %v", hx([]byte(k)), err))
+					continue
+				}
+				found = true
+			}
+			pre := found == !w.del && (w.del || bytes.Equal(val, w.val))
+			switch {
+			case !s.isDropped(k):
+				if !pre {
+					fail("other-key", fmt.Sprintf("key %s (not dropped) reads found:%v %s, before the drop found:%v %s", hx([]byte(k)), found, hx(val), !w.del, hx(w.val)))
+				}
+			case !found:
+			case after:
+				fail("visible-after-drop", fmt.Sprintf("dropped key %s is visible after the completed drop: %s", hx([]byte(k)), hx(val)))
+			case pre:
+			default:
+				old := false
+				for _, h := range hist[k] {
+					if !h.del && bytes.Equal(h.val, val) {
+						old = true
+					}
+				}
+				if old {
+					// finding F32: the newest version goes first (WAL / memtable, then L0, then the
+					// lower levels), so a crash in between shows an older version again
+					fails = append(fails, fmt.Sprintf("[F32:drop-crash-stale-value] [C29-crash-%sstale-value] dropped key %s reads %s, an older value of it; right before the drop it read found:%v %s", sub, hx([]byte(k)), hx(val), !w.del, hx(w.val)))
+				} else {
+					fail("foreign-value", fmt.Sprintf("dropped key %s reads %s, a value it never had", hx([]byte(k)), hx(val)))
+				}
+			}
+		}
+		return nil
+	})
+	// the database keeps accepting writes, above every stored version
+	if next := badger.VerifNextTxnTs(db); next <= maxVer {
+		fail("next-ts", fmt.Sprintf("nextTxnTs=%d, stored max version %d", next, maxVer))
+	}
+	if !probeCommit {
+		return fails
+	}
+	probe := []byte("a")
+	if len(keys) > 0 {
+		probe = []byte(keys[0])
+	}
+	nv := []byte("c29-probe")
+	if err := db.Update(func(txn *badger.Txn) error { return txn.Set(probe, nv) }); err != nil {
+		fail("commit", fmt.Sprintf("commit after the drop / the recovery: %v", err))
+	} else {
+		_ = db.View(func(txn *badger.Txn) error {
+			it, err := txn.Get(probe)
+			if err != nil {
+				fail("commit", fmt.Sprintf("Get after a new commit: %v", err))
+				return nil
+			}
+			val, _ := it.ValueCopy(nil)
+			if it.Version() <= maxVer || !bytes.Equal(val, nv) {
+				fail("commit", fmt.Sprintf("new write got version %d (stored max %d), read back %s", it.Version(), maxVer, hx(val)))
+			}
+			return nil
+		})
+	}
+	return fails
 }
 
 func crOpenErrKind(err error) string {
@@ -1027,6 +1225,32 @@ func execCrash(intents []string, st *Stats) (final, outs, oracle []string) {
 			if s.db != nil {
 				s.c11Live(fail)
 			}
+		case "drop":
+			if s.db == nil {
+				emit(line, "bad-op")
+				continue
+			}
+			s.drop(w[1:], emit, fail)
+		case "dropcheck":
+			if s.db == nil || s.dropAt == 0 {
+				emit(line, "bad-op")
+				continue
+			}
+			emit(line, "ok")
+			s.stopRecording()
+			err := s.db.Close()
+			s.db = nil
+			if err != nil {
+				fail("[C29-crash-reopen] Close after the drop failed: " + err.Error())
+				continue
+			}
+			if err := open(); err != nil {
+				fail("[C29-crash-reopen] Open after a completed drop and a clean Close failed: " + err.Error())
+				continue
+			}
+			for _, f := range s.dropJudgeDB(s.db, true, "reopen-", true) {
+				fail(f)
+			}
 		case "crashes":
 			kv := kvWords(w[1:])
 			emit(line, "ok")
@@ -1071,6 +1295,10 @@ func (s *crSess) crashes(kv map[string]string, emit func(string, string), fail f
 		e.actor = pos[i].actor
 		wc, fc := pos[i].w, pos[i].f
 		g := e.Seq
+		if kv["from"] == "drop" && (s.dropAt == 0 || e.step < s.dropAt-1) {
+			continue
+		}
+		s.judgeStep = e.step
 		acked, issued := s.ackedIssued(g)
 		// sub-event images: open(O_CREAT) done, ftruncate(size) not yet; ftruncate(0) done,
 		// unlink not yet (both inside ristretto's z.OpenMmapFile / MmapFile.Delete)
@@ -1330,6 +1558,23 @@ func genCrashSession(rng *rand.Rand, st *Stats, idx int) []string {
 		}
 	}
 	switch params["mode"] {
+	case "drop":
+		// the last commits stay in the memtable; then the drop, crash images at every event of
+		// it, and the clean re-open
+		for j := 0; j < rng.Intn(4); j++ {
+			ops = append(ops, fmt.Sprintf("commit %s:%d:%s", hx(keys[rng.Intn(len(keys))]), b2i(rng.Intn(6) == 0), hx([]byte{byte(1 + rng.Intn(200)), byte(1 + rng.Intn(200))})))
+		}
+		if rng.Intn(4) == 0 {
+			ops = append(ops, "drop all")
+		} else {
+			var ps []string
+			for j := 0; j < 1+rng.Intn(2); j++ {
+				k := keys[rng.Intn(len(keys))]
+				ps = append(ps, hx(k[:1+rng.Intn(len(k))]))
+			}
+			ops = append(ops, "drop "+strings.Join(ps, " "))
+		}
+		ops = append(ops, "crashes kill=1 power=1 from=drop sub=0", "dropcheck")
 	case "power":
 		ops = append(ops, "crashes kill=0 power=1")
 	case "c07":
@@ -1552,6 +1797,10 @@ func (s *crSess) powerLoss(kv map[string]string, emit func(string, string), fail
 		if e.tok == "" {
 			continue
 		}
+		if kv["from"] == "drop" && (s.dropAt == 0 || e.step < s.dropAt-1) {
+			continue
+		}
+		s.judgeStep = e.step
 		wcP, fcP := posP[i].w, posP[i].f
 		// power-loss points: the end of every logical step (acknowledgement points) and every
 		// event that changes what is durable or which names exist
